@@ -237,6 +237,9 @@ def run_listen(cfg, via, cfg_mode, ch, public_port=80):
                         rec.d.cancel()
                     elif c_up == 4:
                         injected = 'lost-during-wait'
+                        # (some unrelated command of the application is unanswered at that moment)
+                        sim.hold_prefixes = ['GETINFO traffic/read']
+                        impl.proto.queue_command('GETINFO traffic/read').addErrback(lambda f: None)
                         impl.wire.lose(failure.Failure(error.ConnectionLost()))
                     else:
                         injected = 'uploads-failed'
@@ -343,6 +346,8 @@ def run_listen(cfg, via, cfg_mode, ch, public_port=80):
                         t[2]()
                     except Exception:
                         pass
+    import re
+    viol = [(c, f, re.sub(r'tortmp\w+', 'tortmp*', d)) for c, f, d in viol]      # (mkdtemp names differ from run to run)
     return dict(viol=viol, obs=obs, log=log + ['config %r via %s (%s); choices %r' % (cfg, via, cfg_mode, ch.trail)])
 
 
